@@ -29,12 +29,8 @@ func newGoMapObject(value reflect.Value) *goMapObject {
 	}
 }
 
-func (o goMapObject) toKey(name string) reflect.Value {
-	reflectValue, err := stringToReflectValue(name, o.keyType.Kind())
-	if err != nil {
-		panic(err)
-	}
-	return reflectValue
+func (o goMapObject) toKey(name string) (reflect.Value, error) {
+	return stringToReflectValue(name, o.keyType.Kind())
 }
 
 func (o goMapObject) toValue(value Value) reflect.Value {
@@ -96,13 +92,24 @@ func goMapDefineOwnProperty(obj *object, name string, descriptor property, throw
 	if !descriptor.isDataDescriptor() {
 		return obj.runtime.typeErrorResult(throw)
 	}
-	goObj.value.SetMapIndex(goObj.toKey(name), goObj.toValue(descriptor.value.(Value)))
+	key, err := goObj.toKey(name)
+	if err != nil {
+		// The name does not denote a key of this map's key type: fail loudly,
+		// as for a value that does not fit the element type.
+		panic(conversionPanic(err))
+	}
+	goObj.value.SetMapIndex(key, goObj.toValue(descriptor.value.(Value)))
 	return true
 }
 
 func goMapDelete(obj *object, name string, throw bool) bool {
 	goObj := obj.value.(*goMapObject)
-	goObj.value.SetMapIndex(goObj.toKey(name), reflect.Value{})
+	key, err := goObj.toKey(name)
+	if err != nil {
+		// Not a possible key of this map: there is nothing to delete.
+		return true
+	}
+	goObj.value.SetMapIndex(key, reflect.Value{})
 	// FIXME
 	return true
 }
